@@ -131,6 +131,7 @@ void pmc_run(const char* config) {
     mv_init(); mvp::use_fast_stacks();
     mv_on_deadlock = on_deadlock;
     mv_time_deviations(strstr(extra, "tdev") != nullptr);
+    if (strstr(extra, "plain")) mv_plain_region(st.sem, sizeof *st.sem);     // plain accesses to the semaphore object are scheduling points too
     mv_tso(strstr(extra, "tso") != nullptr); mv_switch_points(0);     // built with -DPHOTON_VERIF for the TSC hook only
     st.prog.run(body);
     ledger("end");
@@ -174,6 +175,8 @@ static const PmcConfig CFG[] = {
     {"0i:gen2x3+:tdev",       2, {0,0}, {1,1}, {0,0}, {0,0}, ""},
     {"0i:w1|s1:tso",          3, {1,2}, {0,0}, {1,1}, {2,3}, "x86-TSO store buffers"},
     {"0o:w2,w1|s1s2:tso",     3, {1,1}, {0,0}, {1,1}, {2,2}, ""},
+    {"0i:w1|s1:plain",        3, {1,2}, {0,0}, {0,0}, {0,0}, "plain accesses to the semaphore object (wait queue links) are scheduling points too"},
+    {"0o:w2,w1|s1s2:plain",   2, {1,1}, {0,0}, {0,0}, {0,0}, ""},
     {"0i:w1|@s1:tso",         2, {1,2}, {0,0}, {1,1}, {2,3}, ""},
 };
 const PmcConfig* pmc_configs(int* n) { *n = sizeof CFG / sizeof CFG[0]; return CFG; }
